@@ -5,9 +5,14 @@
  * timer_init) and then lets the clock run for virtual hours.  The callbacks replay_purge, _gids_map_update and
  * _random_stir_entropy are the real ones; their re-arm calls are observed through --wrap=timer_set_relative.
  *
+ * argv[1] (optional) = the PRNG seed file random_init is given (munged always has one: --seed-file); the three
+ * initial conditions of the stir service are: file absent (first start), a complete one (a later start: the stir
+ * interval starts at its maximum), a short one.
+ *
  * stdin:   t <ms>   clock := start + ms (forward steps and jumps), then wait for the timer thread to rest
  *          hup      gids_update (conf->gids), as the SIGHUP handler does
- * stdout:  OP <input line>                     before the line is acted on
+ * stdout:  INIT <random_init's return value>    1 = pool fully seeded, 0 = not, -1 = bad seed
+ *          OP <input line>                     before the line is acted on
  *          ARM <service> <now_ms> <delay_ms>   for every timer_set_relative made by a service
  *          END <now_ms>
  */
@@ -59,12 +64,13 @@ time_t __wrap_time(time_t *t) {
     return r;
 }
 
-int main(void) {
-    char line[256]; struct timespec ts;
+int main(int argc, char **argv) {
+    char line[256]; struct timespec ts; int rv;
     setvbuf(stdout, NULL, _IOFBF, 1 << 20);
     vnow.tv_sec = START_SEC; vnow.tv_nsec = 0;
     conf = create_conf();
-    random_init(NULL);
+    rv = random_init(argc > 1 ? argv[1] : NULL);
+    printf("INIT %d\n", rv);
     conf->gids = gids_create(conf->gids_update_secs, 1);          /* mtime check on: exercises the no-update re-arm path */
     replay_init();
     timer_init();
